@@ -192,3 +192,35 @@ def run(ctx):
                     and is_call(strip_refs(call_args(j)[1]), TOF) and strip_refs(call_args(strip_refs(call_args(j)[1]))[0]) == ("param", 2)
             ctx.check(ok, "D4-READ", PR, "path-%d" % i, "read_to_string(self.path.join(entry.to_filename()))",
                       "read_metadata does not read <package path>/<to_filename(entry)>", fn_span(body))
+
+    # PkgDB::open: a directory opens as a Files database whose ReadDir is that directory
+    OP = "pkgdb::PkgDB::open"
+    ps = ctx.paths(OP)
+    if ps:
+        body = ctx.body(OP)
+        oks = [p for p in ret_paths(ps) if unwrap_ok(p.end[1]) is not None]
+        files = 0
+        for p in oks:
+            isd = [c for c in p.conds() if is_call(c.term, "Path::is_dir")]
+            if not (isd and isd[0].fact == ("eq", True)):
+                continue
+            files += 1
+            st = {}
+            for e in p.events:
+                if e.kind == "store" and isinstance(e.place, tuple) and e.place[0] == "field":
+                    st[e.place[3]] = e.value
+            v = unwrap_ok(p.end[1])
+            a = agg_variant(v)
+            if a:
+                for n_, t_ in zip(v[5], a[2]):
+                    st.setdefault(n_, t_)
+            dt = agg_variant(st.get("dbtype"))
+            rd = unwrap_some(st.get("readdir")) if st.get("readdir") is not None else None
+            ok = bool(dt) and dt[1] == "Files" and rd is not None and bool(find_calls(rd, "fs::read_dir")) and mentions(rd, lambda s: s == ("param", 1)) \
+                and not find_calls(rd, "Path::parent", "Path::join", "Path::with_file_name", "Path::ancestors") and mentions(st.get("path"), lambda s: s == ("param", 1))
+            ctx.check(ok, "D4-OPEN", OP, "directory", "directory -> DBType::Files with readdir = read_dir(that path)",
+                      "opening a directory does not yield a Files database reading that directory", fn_span(body))
+        ctx.floor("D4-OPEN", OP, "directory-opening paths", files, 1)
+        nf = [p for p in ret_paths(ps) if unwrap_err(p.end[1]) is not None and not find_calls(p.end[1], "from_residual")]
+        ok = bool(nf) and all(any(is_call(c.term, "Path::is_dir") and c.fact == ("eq", False) for c in p.conds()) for p in nf)
+        ctx.check(ok, "D4-OPEN", OP, "neither", "neither file nor directory -> Err", "open() does not reject a path that is neither a directory nor a file", fn_span(body), nontrivial=False)
